@@ -20,7 +20,14 @@ def run(ctx):
                       "(written only under pid == *pids.last()), whatever order the stages finish in")
     ctx.rule("R03-5", "cicada -c exits with previous_status; a script run exits with run_script's value, "
                       "which is the status of the last command result")
+    ctx.rule("R03-7", "line_to_cmds recognises `;`, `&&`, `||` with a look-ahead in the same index space as its cursor: the "
+                      "counter of chars().enumerate() is never used as a byte offset, so non-ASCII text before an operator "
+                      "cannot hide it")
     for crate in ctx.crates:
+        from .. import ispace
+        if ctx.require(crate.fn("parsers::parser_line::line_to_cmds") is not None, "R03-7", "R03-7|anchor",
+                       "parsers::parser_line::line_to_cmds not found"):
+            ispace.rule(ctx, crate, "R03-7", ["parsers::parser_line::line_to_cmds"])
         body = crate.fn("execute::run_command_line")
         if ctx.require(body is not None, "R03-1", "R03-1|anchor", "execute::run_command_line not found"):
             ctx.analysed(body)
